@@ -63,7 +63,10 @@ func init() {
 			}
 			return rs
 		}
-		return ex.freshResults(st, fn.Signature, "poolget")
+		// unknown New function: an exclusively owned object of unknown dynamic type
+		ref := st.newRef()
+		ex.trustedUsed["sync.Pool.Get returns an object that nothing else references"] = true
+		return []Val{{T: fn.Signature.Results().At(0).Type(), L: []*Term{FreshVar("pooltag", IntS), ref}}}
 	}
 	trustedSpecs["(*sync.Pool).Put"] = func(ex *Exec, fr *Frame, st *State, fn *ssa.Function, args []Val, pos token.Pos) []Val {
 		return nil
